@@ -110,8 +110,10 @@ Theorem pool_tree_independent_of_history :
 Proof. exact pool_converges_lemma. Qed.
 Print Assumptions pool_tree_independent_of_history.
 
-(* Metadata: when the upstream answers the first request for the first path of
-   each queued release file / index with a complete body of a bytes dated d
+(* Metadata: when the upstream answers the first path of each queued release
+   file / index - at the first request, or after fewer 404 / 5xx answers than
+   the retry budget if the file is a required one ([good_meta]) - with a
+   complete body of a bytes dated d
    (ann f = (variant, a, d); a <> 0 and equal to the declared size if there is
    one), then after the stage - from EVERY previous filesystem, whether the
    file is transferred or recognised as unmodified - every path of that variant
@@ -175,3 +177,8 @@ Example mirror_is_function_of_upstream_example :
   | _, _ => False
   end.
 Proof. exact repo_run_example. Qed.
+
+Example mirror_is_function_of_upstream_after_transient_faults :
+  repo_run [ex_idx] ex_poolq ex_u_flaky ex_old_skel ex_old_mirror = repo_run [ex_idx] ex_poolq ex_u [] [] /\
+  good_meta ex_idx ex_u_flaky ex_v 10 1700000001.
+Proof. exact repo_run_flaky_example. Qed.
